@@ -441,3 +441,16 @@ Section BodiesAgreeIdx.
     f_equal. f_equal. unfold args_to_idx. rewrite Nat.min_l by exact Hle. reflexivity.
   Qed.
 End BodiesAgreeIdx.
+
+(* ---- empty input ------------------------------------------------------------------------ *)
+Lemma empty_to {T St O} w (f : St -> option T * T -> St * O) s0 : rolling_apply_to w f s0 [] = Done [].
+Proof.
+  unfold rolling_apply_to, bad_window. cbn [length Nat.eqb negb]. rewrite Bool.andb_false_r.
+  unfold calls_to. cbn [length]. rewrite Nat.min_0_r. reflexivity.
+Qed.
+Lemma empty_default {T St O} w (f : St -> option T * T -> St * O) s0 :
+  rolling_apply_default w f s0 [] = Done [].
+Proof.
+  unfold rolling_apply_default, bad_window. cbn [length Nat.eqb negb]. rewrite Bool.andb_false_r.
+  unfold args_iter. rewrite combine_nil. reflexivity.
+Qed.
